@@ -138,6 +138,15 @@ def search(ctx):
             out.append(f"C02.thread\tg_0:S@plain;g_1:{cls}\tf_0:ib:xs.g1;f_1:-:{pos}.c0/_/g0;cs_main:i:xs.c1\t2")
     out.append("C02.thread\tg_0:S@plain\tf_0:d:xs.g0;f_1:-:xs.c0/_;cs_main:i:xs.c1\t2")
     out.append("C02.thread\tg_0:Sc@plain;g_1:S@plain:0\tcs_main:i:xs.g1\t0")
+    # vector layer: one small function per shape-changing arm of generate_expression
+    for src, args in [
+        ("float f(float s) { return s.xx.y + s.xxx.z; }", "f:3f800000"),
+        ("float2 f(float s, float3 v) { float2 t = s.xx; return t + (float2)v + (float2)(float)v; }", "f:3f800000,V(f:40000000 f:40400000 f:40800000)"),
+        ("float3 f(float4 v, int2 i) { return (float3)v.wzyx + float3(i, 1.0f).zxy; }", "V(f:3f800000 f:40000000 f:40400000 f:40800000),V(i:00000005 i:00000007)"),
+        ("float3 f(float3 v, float3 w) { return v % w; }", "V(f:3f800000 f:40000000 f:40400000),V(f:40000000 f:40400000 f:40800000)"),
+        ("struct S { float3 a; int2 b; };\nint f(S s, int k) { s.b.y = k; return s.b.y + (int)s.a.z; }", "S(V(f:3f800000 f:40000000 f:40400000) V(i:00000001 i:00000002)),i:00000009"),
+    ]:
+        out.append("C02.vfn\t%s\tf\t%s\t-\t-" % (src, args))
     return out
 
 
